@@ -4,7 +4,8 @@ terms with the equi-join key expressions as parameters) and its translation vali
 
 `prepare()` regenerates the Lean terms from real runs of the public functions on the current tree.
 `validate()` evaluates the regenerated statements with the Lean SQL semantics (`Rel.eval`, driver op `bcount_sql`) on the cases of the
-correspondence run and compares the total with the pre-filter count the real engine returned for the real code, and the rows of
+correspondence run and compares the total with the pre-filter count the real engine returned for the real code, the `cartesian` the cumulative function
+reported with the one the row counts of the regenerated `__splink__df_count` statement give, and the rows of
 `n_largest_blocks` with the rows `Rel.eval` gives (every engine row must be one of the rows under `Rel.eval`; the block sizes, in
 order, must be those of the resolution the driver computes).  This validates the translator + `Rel.eval` against DuckDB / SQLite;
 it is testing, not proof (the proof is `Properties/C14Sql.lean`).
@@ -50,7 +51,21 @@ def request(case, recs, atoms, two: bool, first_sd) -> dict | None:
         L, R = [_row(r) for r in recs], []
     if len(L) + len(R) > MAX_ROWS:
         return None
-    return {"op": "bcount_sql", "two": two, "L": L, "R": R, "keys": keys, "n": int(case["n"])}
+    q = {"op": "bcount_sql", "two": two, "L": L, "R": R, "keys": keys, "n": int(case["n"])}
+    # _row_counts_per_input_table of the cumulative function: __splink__df_concat always holds every record; column 5 = source dataset
+    q["concat"] = [_row(r) + [r["source_dataset"]] for r in recs]
+    q["sd"] = None if case["link_type"] == "dedupe_only" else 5
+    return q
+
+
+def expected_cartesian(counts, link_type):
+    """what `_cumulative_comparisons_to_be_scored_from_blocking_rules` derives from the row counts (the arithmetic is the real
+    misc.calculate_cartesian, itself translation-validated by C14's T-arith check)"""
+    from splink.internals.misc import calculate_cartesian
+
+    if link_type == "link_only" and len(counts) < 2:
+        return 0.0
+    return float(calculate_cartesian([{"count": c} for c in counts], link_type))
 
 
 def _plain(v):
@@ -96,5 +111,11 @@ def validate(ctx: core.Ctx, items, drv: core.Driver):
                 problems.append((c, f"rows of n_largest_blocks: engine {got[:4]} are not distinct rows of the regenerated statement under Rel.eval {want_rows[:6]}"))
                 continue
             ctx.count("translation_validation", "bcount_sql n_largest rows agree with engine")
+        if r.get("cartesian") is not None and m.get("rowcounts") is not None:
+            want = expected_cartesian(m["rowcounts"], c["link_type"])
+            if not core.close(want, r["cartesian"], 1e-12):
+                problems.append((c, f"row counts per input table of the regenerated SQL under Rel.eval are {m['rowcounts']}, giving cartesian {want}, but the engine's run of the real code reported cartesian {r['cartesian']}"))
+                continue
+            ctx.count("translation_validation", "bcount_sql row counts give the engine's cartesian")
         ctx.count("translation_validation", "bcount_sql total agrees with engine")
     return problems
